@@ -4,6 +4,8 @@
 From Coq Require Import String List Bool.
 From CF Require Import Model.Tables Model.TableSem Proofs.TableProofs Proofs.FactsExports.
 From CF Require Import Gen.GenExports Gen.GenMacros.
+From Coq Require Import ZArith.
+From CF Require Import Model.Prim Model.Kernels Model.Exports Model.Spec Proofs.ReduceCorrect Proofs.SpecLink Proofs.SafeSem.
 Import ListNotations.
 
 (* Re-assembling <ty>_x<form>_<arch>_<fma|nofma>_<op> from the row's element type, register and generic
@@ -28,6 +30,26 @@ Theorem C11_fma_tag :
     (kernel_uses_fmadd (e_op e) && fused (e_reg e) (e_ty e) = true
      <-> e_xany e = (ty_name (e_ty e) ++ "_xany_" ++ arch_tag (e_reg e) ++ "_fma_" ++ kernel_opname (e_op e))%string).
 Proof. exact C11_fma_tag_proof. Qed.
+
+(* Semantics follows the name: for every row of the table with an integer element type on a modelled register, a
+   documented call of either form (release or debug build) meets the specification of the row's operation
+   [e_op e] - and by C11_names the exported identifier spells exactly (e_ty e, e_reg e, e_op e). *)
+Theorem C11_semantics_int :
+  forall e f debug DIMS v a b res,
+    In e exports -> is_float (e_ty e) = false -> e_reg e <> Neon -> In (e_op e) int_spec_kernels ->
+    dims_of f DIMS (List.length a) = List.length a ->
+    (kernel_uses_b (e_op e) = true -> List.length b = List.length a) ->
+    (kernel_writes (e_op e) = true -> List.length res = List.length a) ->
+    Forall (in_range (width (e_ty e))) a -> in_range (width (e_ty e)) v ->
+    (kernel_uses_b (e_op e) = true -> Forall (in_range (width (e_ty e))) b) ->
+    e_name f e = export_name_spec f (e_ty e) (e_reg e) (e_op e)
+    /\ xmeets (run_export_int e f debug DIMS v a b res)
+              (spec_int (is_signed (e_ty e)) (width (e_ty e)) (e_op e) v a b).
+Proof.
+  intros e f debug DIMS v a b res He Hty Hreg Hk Hd Hb Hr Fa Hv Fb. split.
+  - apply C11_names_proof. exact He.
+  - apply export_row_int_meets_spec; assumption.
+Qed.
 
 Check C11_names : forall e f, In e exports -> e_name f e = export_name_spec f (e_ty e) (e_reg e) (e_op e).
 
